@@ -33,7 +33,7 @@
    decrypts what every other member sends.
    Statements only. *)
 From Coq Require Import NArith List Bool.
-From MlsV Require Import Res TreeMathGen Tree Kem Priv PrivProofs Decap DecapProofs KemGen KemGenProofs TreeProofs TreeWF5 PrivComplete Agreement KemSecrets KemSecretsProofs Filter FilterProofs Pending PendingProofs NodeVecGen NodeVecGenProofs.
+From MlsV Require Import Res TreeMathGen Tree Kem Priv PrivProofs Decap DecapProofs KemGen KemGenProofs TreeProofs TreeWF5 PrivComplete Agreement KemSecrets KemSecretsProofs Filter FilterProofs Pending PendingProofs NodeVecGen NodeVecGenProofs CommitStep.
 Local Open Scope N_scope.
 Import ListNotations.
 
@@ -86,6 +86,34 @@ Theorem C01_translated_node_vector_operations_are_the_model : forall t start ind
   gen_total_leaf_count t = total_leaf_count t /\
   gen_batch_phases = batch_phases.
 Proof. exact translated_node_vector. Qed.
+
+(* ---- end to end, over one group model: in ANY state that satisfies the group invariant of C09 (hence in
+   every state reachable by commits from a new group: C09_every_reachable_group_state_satisfies_the_invariant),
+   for ANY commit with a path, every member that stays finds a ciphertext of the committer's update
+   path sealed to a key it holds, opens the committer's path secret of its level and derives from it the
+   committer's commit secret *)
+Theorem C01_every_member_of_every_reachable_state_derives_the_commit_secret :
+  forall (sec : Type) (derive : sec -> sec) g removes updates adds t1 added sndr id flt newleaf me pr pr1 L r idm,
+    GInv g -> In (me, pr) (g_members g) ->
+    tlen (g_tree g) + 2 * N.of_nat (length adds) < 2 ^ 25 ->
+    batch_edit (g_tree g) removes updates adds = TOk (t1, added) ->
+    let t1' := set t1 (2 * sndr) (Some (Leaf id)) in
+    2 * sndr < tlen t1 -> filtered t1' sndr = Ok flt ->
+    2 * me < tlen t1 -> get t1 (2 * me) = Some (Leaf idm) -> ~ In me added -> newleaf me = None ->
+    provisional_priv t1 me pr None = Ok pr1 ->
+    1 <= L -> me / 2 ^ L = sndr / 2 ^ L -> (forall k, k < L -> me / 2 ^ k <> sndr / 2 ^ k) ->
+    (N.to_nat (L - 1) < length flt)%nat ->
+    let k := N.to_nat (L - 1) in
+    let ks1 := keys_after_proposals (g_keys g) t1 newleaf in
+    exists s i key recips ct,
+      secret_at sec (fst (committer_chain sec derive flt r)) k = Some s /\
+      decap_select t1' me pr1 k added = Ok (Some (i, key)) /\
+      sealed_to t1' (lvl_node (N.of_nat k) me) added = Ok recips /\
+      nth_error (seal_to sec ks1 recips s) i = Some ct /\
+      open_with sec key ct = Some s /\
+      receiver_chain sec derive (skipn k flt) s =
+        (skipn k (fst (committer_chain sec derive flt r)), snd (committer_chain sec derive flt r)).
+Proof. exact every_receiver_derives_the_commit_secret. Qed.
 
 Print Assumptions C01_receivers_reach_the_committers_commit_secret.
 Print Assumptions C01_receivers_agree_with_each_other.
@@ -177,3 +205,4 @@ Theorem C01_receiver_level_is_unfiltered_in_the_committers_list :
 Proof. exact receiver_level_unfiltered. Qed.
 Print Assumptions C01_receiver_level_is_unfiltered_in_the_committers_list.
 Print Assumptions C01_translated_node_vector_operations_are_the_model.
+Print Assumptions C01_every_member_of_every_reachable_state_derives_the_commit_secret.
